@@ -384,6 +384,17 @@ func runC16(c *Ctx, r *Report, tier string) {
 		r.Check(reaches(a.fn, a.sub), "ATTR", c.fname(a.fn), a.what, c.pos(a.fn.Pos()), "reaches a writer call", "attribute "+a.sub+"… never reaches a writer in "+c.fname(a.fn))
 	}
 
+	// descriptions pass through wrapText on their way to the writer: nothing is dropped at a line break
+	if wt := c.Fn("wrapText"); wt != nil {
+		c.wrapCutRule(r, "ATTR", wt, nil)
+	}
+	// the man page covers the whole command tree: no return of writeManPageCommand skips the options or the subcommands
+	if mc := c.Fn("writeManPageCommand"); mc != nil {
+		for _, ret := range returnsOf(mc) {
+			c.mptRule(r, "ATTR", mc, ret, "man page: a command's options are written", c.isCallTo("writeManPageOptions"), "call writeManPageOptions", nil)
+			c.mptRule(r, "ATTR", mc, ret, "man page: a command's subcommands are written", c.isCallTo("writeManPageSubcommands"), "call writeManPageSubcommands", nil)
+		}
+	}
 	// ---- MASK
 	maskEmpty := func(t string) LitMatch {
 		return func(l Lit) bool { return !l.Pos && strings.HasPrefix(l.Term, "nonempty(Option.DefaultMask("+t) }
